@@ -363,6 +363,8 @@ class ConnectionState:
                 resp.code = ResponseCode.of(b'EXPUNGEISSUED')
             elif cmd.silent:
                 continue
+            else:
+                self.selected.told(msg.uid, msg.permanent_flags)
             flags = msg.get_flags(session_flags)
             fetch_data: list[FetchValue] = [
                 FetchValue.of(_flags_attr, List(flags, sort=True))]
